@@ -23,6 +23,7 @@ struct cfg {
   int free_drops; /* >0: drops of the first N datagrams cost nothing (all drop subsets) */
   int late_timer; /* offer deadline-1 / deadline+1 timer alternatives */
   int verdict_choice; /* peer verdict is a choice point */
+  int same_mid;   /* all sessions start from the same message id: equal mids on different sessions of one context */
   int notify;     /* >0: the context is also a server; a raw observer is registered and the script triggers this many
                      Confirmable notifications (they are created inside coap_io_prepare_io) */
 };
@@ -582,6 +583,8 @@ run(void *arg) {
     coap_session_set_nstart(sess[i], (uint16_t)C->nstart);
     if (coap_session_get_max_retransmit(sess[i]) != C->max_retx)
       vx_fail("harness:setter", "max_retransmit not applied");
+    if (C->same_mid && i > 0)
+      sess[i]->tx_mid = sess[0]->tx_mid;
   }
   if (C->notify) {
     coap_address_t la;
@@ -646,9 +649,9 @@ static int ncfgs;
 static void
 add(struct cfg c) {
   cfgs = realloc(cfgs, sizeof *cfgs * (size_t)(ncfgs + 1));
-  snprintf(c.name, sizeof c.name, "c06:ato=%d,arf=%d,mr=%d,nreq=%d,nsess=%d,nstart=%d,non=%d,ans=%d%c,r=%d,stag=%d,fd=%d,late=%d,vc=%d,nfy=%d,B=%d",
+  snprintf(c.name, sizeof c.name, "c06:ato=%d,arf=%d,mr=%d,nreq=%d,nsess=%d,nstart=%d,non=%d,ans=%d%c,r=%d,stag=%d,fd=%d,late=%d,vc=%d,nfy=%d,sm=%d,B=%d",
            c.ato_ms, c.arf_milli, c.max_retx, c.nreq, c.nsess, c.nstart, c.with_non, c.answer_from, c.verdict, c.rsel,
-           c.stagger, c.free_drops, c.late_timer, c.verdict_choice, c.notify, c.bound);
+           c.stagger, c.free_drops, c.late_timer, c.verdict_choice, c.notify, c.same_mid, c.bound);
   cfgs[ncfgs++] = c;
 }
 
@@ -696,6 +699,11 @@ main(int argc, char **argv) {
           if (!T && nr == 3 && k != 0)
             c.bound = 1;
           add(c);
+          if (ns == 2 && st == 0) {
+            /* the two sessions use equal message ids: an ACK / RST must only ever affect its own session's message */
+            c.same_mid = 1;
+            add(c);
+          }
         }
   /* (4) Confirmable notifications: created inside coap_io_prepare_io() while requests share the send queue */
   for (int nr = 0; nr <= 1; nr++)
@@ -710,7 +718,7 @@ main(int argc, char **argv) {
   vx_ev_rule("executions of a real libcoap client context against raw peers under a virtual clock; enumerated: "
              "configuration product (ACK_TIMEOUT x ACK_RANDOM_FACTOR x MAX_RETRANSMIT x r byte x peer-silence length x verdict), "
              "all 2^10 drop subsets of the first 10 datagrams, and all schedules with <= bound deviations "
-             "(drop/dup/reorder/timer-first/timer +-1ms/other peer verdict) for multi-message scripts, also with 1-2 Confirmable observe notifications (created inside coap_io_prepare_io by the same context acting "
+             "(drop/dup/reorder/timer-first/timer +-1ms/other peer verdict) for multi-message scripts (two sessions also with equal message ids), also with 1-2 Confirmable observe notifications (created inside coap_io_prepare_io by the same context acting "
              "as server for a raw observer) sharing the send queue; an execution is "
              "non-trivial when a retransmission, give-up or deviation occurred; distinct = distinct observation logs");
   vx_ev_assumption("peers are raw addresses driven by the harness; no ping_timeout configured (libcoap then deliberately caps the retransmission delay)");
